@@ -45,6 +45,8 @@ pub struct ExploreResult {
     pub stats: FamilyStats,
     /// canonical fingerprints reached per depth (for the dedup audit)
     pub per_depth: Vec<HashSet<u64>>,
+    /// one history per fingerprint (JSON), kept for small depths only (diagnostics of the audit)
+    pub repr: HashMap<u64, String>,
 }
 
 fn replay<M: Model>(model: &M, hist: &[M::Ev]) -> Result<M::Sys, (usize, Fail)> {
@@ -69,7 +71,7 @@ pub fn replay_history<M: Model>(model: &M, hist: &[M::Ev]) -> Result<u64, Fail> 
 
 pub fn explore<M: Model>(ctx: &Ctx, family: &str, model: &M, opts: ExploreOpts) -> ExploreResult {
     if !ctx.family_enabled(family) {
-        return ExploreResult { stats: FamilyStats::default(), per_depth: vec![] };
+        return ExploreResult { stats: FamilyStats::default(), per_depth: vec![], repr: HashMap::new() };
     }
     let start = Instant::now();
     // level 0
@@ -82,6 +84,7 @@ pub fn explore<M: Model>(ctx: &Ctx, family: &str, model: &M, opts: ExploreOpts) 
     let executions = AtomicU64::new(0);
     let classes: Mutex<HashSet<u64>> = Mutex::new(HashSet::new());
     let mut states: u64 = 1;
+    let mut repr: HashMap<u64, String> = HashMap::new();
     let mut depth_completed = 0usize;
     let mut cap_hit: Option<String> = None;
     let mut samples: Vec<Value> = vec![];
@@ -187,6 +190,9 @@ pub fn explore<M: Model>(ctx: &Ctx, family: &str, model: &M, opts: ExploreOpts) 
         let mut level: HashSet<u64> = HashSet::new();
         for (h, fp) in succ {
             level.insert(fp);
+            if depth < 5 {
+                repr.entry(fp).or_insert_with(|| serde_json::to_string(&h).unwrap());
+            }
             if opts.dedup {
                 if seen.contains_key(&fp) {
                     continue;
@@ -230,11 +236,48 @@ pub fn explore<M: Model>(ctx: &Ctx, family: &str, model: &M, opts: ExploreOpts) 
     };
     stats.extra.insert("frontier_left".into(), json!(frontier.len()));
     ctx.add_family(stats.clone());
-    ExploreResult { stats, per_depth }
+    ExploreResult { stats, per_depth, repr }
 }
 
 /// Dedup audit: the same search without dedup to depth `d` must reach exactly the same canonical states per depth.
-pub fn audit_dedup<M: Model>(ctx: &Ctx, family: &str, model: &M, with_dedup: &ExploreResult, d: usize, wall_cap: Duration) {
+pub fn audit_dedup<M: Model>(ctx: &Ctx, family: &str, model: &M, with_dedup: &ExploreResult, d: usize, wall_cap: Duration)
+where
+    M::Ev: serde::de::DeserializeOwned,
+{
+    let diag: Option<Box<dyn Fn(u64, &HashMap<u64, String>, &HashMap<u64, String>)>> = Some(Box::new(|_fp, only, dedup| {
+        // find, for a history h only reached without dedup, the representative with the same canonical prefix state
+        let hjson = match only.get(&_fp) {
+            Some(h) => h.clone(),
+            None => return,
+        };
+        let h: Vec<M::Ev> = match serde_json::from_str(&hjson) {
+            Ok(h) => h,
+            Err(_) => return,
+        };
+        if h.is_empty() {
+            return;
+        }
+        let prefix = &h[..h.len() - 1];
+        let sys = match replay(model, prefix) {
+            Ok(s) => s,
+            Err(_) => return,
+        };
+        let pc = model.canon(&sys);
+        let pfp = util::fnv64(&pc);
+        eprintln!("    prefix canonical state {:016x}: {}", pfp, String::from_utf8_lossy(&pc));
+        if let Some(rep) = dedup.get(&pfp) {
+            eprintln!("    representative of that state in the deduplicated search: {}", rep);
+            if let Ok(mut r) = serde_json::from_str::<Vec<M::Ev>>(rep) {
+                r.push(h[h.len() - 1].clone());
+                if let Ok(s2) = replay(model, &r) {
+                    eprintln!("    successor via representative: {}", String::from_utf8_lossy(&model.canon(&s2)));
+                }
+            }
+        }
+        if let Ok(s1) = replay(model, &h) {
+            eprintln!("    successor via this history  : {}", String::from_utf8_lossy(&model.canon(&s1)));
+        }
+    }));
     let name = format!("{}-audit", family);
     if !ctx.family_enabled(&name) {
         return;
@@ -250,6 +293,24 @@ pub fn audit_dedup<M: Model>(ctx: &Ctx, family: &str, model: &M, with_dedup: &Ex
         cum_a.extend(with_dedup.per_depth[k].iter());
         cum_b.extend(res.per_depth[k].iter());
         if cum_a != cum_b {
+            for fp in cum_b.difference(&cum_a).take(3) {
+                let hjson = res.repr.get(fp).cloned().unwrap_or_default();
+                eprintln!("  only without dedup: {:016x} via {}", fp, hjson);
+                // diagnose: the representative of its prefix and the canonical forms of both successors
+                if let Ok(h) = serde_json::from_str::<Vec<serde_json::Value>>(&hjson) {
+                    if h.len() >= 2 {
+                        let _ = h;
+                    }
+                }
+            }
+            if let Some(diag) = diag.as_ref() {
+                for fp in cum_b.difference(&cum_a).take(2) {
+                    diag(*fp, &res.repr, &with_dedup.repr);
+                }
+            }
+            for fp in cum_a.difference(&cum_b).take(5) {
+                eprintln!("  only with dedup: {:016x} via {}", fp, with_dedup.repr.get(fp).cloned().unwrap_or_default());
+            }
             eprintln!(
                 "MACHINERY ERROR: dedup audit failed for {} at depth {}: {} states with dedup, {} without",
                 family,
